@@ -8,7 +8,9 @@
 //	enter close <fd> <loop>              el.close was entered for it
 //	enter closeConns <loop>              loop <loop> left Polling
 //
-// The life's reply carries the canonical event list and the number of connected sockets that stayed open.
+// (each with the id of the calling goroutine). The life's reply carries the canonical event list (A = hand-over by an
+// acceptor, N = enrolment by a Register call, E, C, X), the number of connected sockets that stayed open and the number
+// of accepted Register calls that were never answered.
 package main
 
 import (
@@ -28,10 +30,13 @@ var hoEvents []string
 var hoSeq map[int]int // real descriptor number -> sequence number of the connection that currently owns it
 var hoNext int
 
+var hoAcceptors map[string]bool
+
 func hoStart() {
 	hoMu.Lock()
-	hoEvents, hoSeq, hoNext = nil, map[int]int{}, 0
+	hoEvents, hoSeq, hoNext, hoAcceptors = nil, map[int]int{}, 0, map[string]bool{}
 	hoMu.Unlock()
+	vsys.LogGoid = true
 	vsys.Set(func(rec string) {
 		f := strings.Fields(rec)
 		if len(f) < 3 || f[0] != "enter" {
@@ -39,11 +44,22 @@ func hoStart() {
 		}
 		hoMu.Lock()
 		defer hoMu.Unlock()
+		g := ""
+		if last := f[len(f)-1]; strings.HasPrefix(last, "g=") {
+			g = last
+			f = f[:len(f)-1]
+		}
 		switch f[1] {
+		case "accept0", "accept": // the goroutines that accept: the main reactor, or every loop in SO_REUSEPORT mode
+			hoAcceptors[g] = true
 		case "newStreamConn":
 			fd, _ := strconv.Atoi(f[2])
 			hoSeq[fd] = hoNext
-			hoEvents = append(hoEvents, fmt.Sprintf("A:%s:%d", f[3], hoNext))
+			kind := "N" // created by a Register / Enroll call (some other goroutine)
+			if hoAcceptors[g] {
+				kind = "A" // created by an acceptor
+			}
+			hoEvents = append(hoEvents, fmt.Sprintf("%s:%s:%d", kind, f[3], hoNext))
 			hoNext++
 		case "register0":
 			fd, _ := strconv.Atoi(f[2])
@@ -76,12 +92,12 @@ func hoArmDupFault() bool {
 }
 
 // hoReport: the event list and the number of leaked connected sockets (counted by the caller)
-func hoReport(leakedSockets int) string {
+func hoReport(leakedSockets, unanswered int) string {
 	vsys.Set(nil, nil)
 	hoMu.Lock()
 	defer hoMu.Unlock()
 	if len(hoEvents) == 0 {
-		return fmt.Sprintf(" | ho leaked=%d", leakedSockets)
+		return fmt.Sprintf(" | ho leaked=%d unanswered=%d", leakedSockets, unanswered)
 	}
-	return fmt.Sprintf(" | ho leaked=%d %s", leakedSockets, strings.Join(hoEvents, " "))
+	return fmt.Sprintf(" | ho leaked=%d unanswered=%d %s", leakedSockets, unanswered, strings.Join(hoEvents, " "))
 }
